@@ -96,7 +96,7 @@ def run(pid, tier):
             return R.finish()
         import driverprops
         chunks = [exports[i:i + 3000] for i in range(0, len(exports), 3000)]
-        for part in driverprops.pool_map(_pairs_chunk, chunks):
+        for part in driverprops.pool_map_shared(_pairs_chunk, chunks):
             for (a, b, pred, ok, agree, sites, ta, tb, excs) in part:
                 R.case((a, b), nontrivial=bool(pred))
                 if ok:
@@ -123,7 +123,9 @@ def prog_corpus(tier, kind, withviol):
     import normgen
     from common import seed as verif_seed
     sd = verif_seed()
-    n = {("quick", "c"): 800, ("quick", "h"): 160, ("thorough", "c"): 8000, ("thorough", "h"): 1600}[(tier, kind)]
+    # TLC's simulator evaluates the invariants on EVERY successor it generates, so each behaviour exports all the
+    # respellings enabled at its last state (4 whole-file modes + every splice site picked + every line x 2: about 50)
+    n = {("quick", "c"): 64, ("quick", "h"): 32, ("thorough", "c"): 640, ("thorough", "h"): 160}[(tier, kind)]
     k = cache.key("respellprog", kind, withviol, n, sd)
     c = cache.get(k)
     if c is not None:
@@ -199,7 +201,7 @@ def program_level(R, tier):
             recs += exports
     R.cov["exhaustive"] = False
     jobs = [dict(rec=rec, seed=sd * 23 + 1, idx=i, keep=(i % 499 == 0)) for i, rec in enumerate(recs)]
-    for w in driverprops.pool_map(_work_prog, jobs):
+    for w in driverprops.pool_map_shared(_work_prog, jobs):
         rec = recs[w["idx"]]
         R.case(("prog", w["idx"], w["mode"]), nontrivial=w["differs"])
         if w["same_tokens"] and w["diag_ok"]:
